@@ -70,3 +70,37 @@ func (n *NoLen) Hash() (uint32, error) { return 0, fmt.Errorf("unhashable type: 
 func (n *NoLen) Iterate() starlark.Iterator {
 	return starlark.NewList(append([]starlark.Value{}, n.Vals...)).Iterate()
 }
+
+// Spy is a host-defined Iterable that calls OnNext from inside every Next: an
+// operation that consumes it can be observed WHILE it is running.
+type Spy struct {
+	Vals   []starlark.Value
+	OnNext func()
+}
+
+func (n *Spy) String() string        { return "spy" }
+func (n *Spy) Type() string          { return "spy" }
+func (n *Spy) Freeze()               {}
+func (n *Spy) Truth() starlark.Bool  { return true }
+func (n *Spy) Hash() (uint32, error) { return 0, fmt.Errorf("unhashable type: spy") }
+func (n *Spy) Iterate() starlark.Iterator {
+	return &spyIter{n, 0}
+}
+
+type spyIter struct {
+	s *Spy
+	i int
+}
+
+func (it *spyIter) Next(p *starlark.Value) bool {
+	if it.s.OnNext != nil {
+		it.s.OnNext()
+	}
+	if it.i < len(it.s.Vals) {
+		*p = it.s.Vals[it.i]
+		it.i++
+		return true
+	}
+	return false
+}
+func (it *spyIter) Done() {}
